@@ -570,7 +570,7 @@ func (fx *FuncCtx) makeIface(st *State, v *Val, ifaceT types.Type) *Val {
 		}
 		box, unbox := fx.u.boxFn(fx.u.sortOf(dt))
 		payload = "(" + box + " " + v.T + ")"
-		fx.emit("(assert (= (" + unbox + " " + payload + ") " + v.T + "))")
+		_ = unbox
 	}
 	return &Val{T: fmt.Sprintf("(mk_if %d %s)", tag, payload), Ty: ifaceT, Fn: v.Fn, Binds: v.Binds}
 }
